@@ -1,6 +1,7 @@
 package main
 
 import (
+	"bytes"
 	"context"
 	"errors"
 	"fmt"
@@ -22,7 +23,7 @@ func init() {
 			"expiry from Walk().ExpireAt() is checked against [t0+T-|T|J/2-eps, t1+T+|T|J/2+eps] with wall-clock brackets t0/t1 around the Write; reads before/after expiry checked; " +
 			"per batch a distribution block (2000 writes each for J=1.0 and J=default) must populate both halves and both outer deciles of the jitter interval; " +
 			"distinct_nontrivial = distinct (backend, config class, ctx class, jitter class, magnitude decade) cells with a finite effective TTL",
-		Required: []string{"trait_ttl.checked", "writes", "bounds.checked", "unlimited.checked", "read.hit.checked", "read.expired.checked", "dist.blocks"},
+		Required: []string{"restored.checked", "trait_ttl.checked", "writes", "bounds.checked", "unlimited.checked", "read.hit.checked", "read.expired.checked", "dist.blocks"},
 		Assumptions: []string{
 			"wall clock (time.Now().UnixNano) is not stepped backwards/forwards during a run",
 			"eps = 2ns + |T|*2^-52 covers float64 rounding of the jitter product",
@@ -205,6 +206,25 @@ func c10Case(b *Batch, idx int) {
 	b.R.Nontrivial(fmt.Sprintf("%s/%s/%s/%s/1e%d", kind, cfgClass, ctxClass, jitClass, dec))
 	if idx == 0 {
 		b.R.Sample(desc)
+	}
+	// an entry that arrives through Dump/Restore in a fresh instance of the same configuration expires at the same instant
+	if idx%8 == 0 {
+		var buf bytes.Buffer
+		if _, err := be.Dump(&buf); err == nil {
+			be2 := newBackend(kind, cache.Config{TimeToLive: cfgTTL, ExpirationJitter: jit})
+			if _, err := be2.Restore(&buf); err == nil {
+				b.R.Count("restored.checked", 1)
+				tb2 := time.Now().UnixNano()
+				v2, err2 := be2.Read(bg, key)
+				ta2 := time.Now().UnixNano()
+				if E < tb2 && !errors.Is(err2, cache.ErrExpired) {
+					fail("restored-read-after-expiry", fmt.Sprintf("restored entry with E=%d < now=%d reads (%v,%v)", E, tb2, v2, err2))
+				}
+				if E > ta2 && (err2 != nil || v2 != val) {
+					fail("restored-read-before-expiry", fmt.Sprintf("restored entry with E=%d > now=%d reads (%v,%v)", E, ta2, v2, err2))
+				}
+			}
+		}
 	}
 	// reads
 	tb := time.Now().UnixNano()
